@@ -37,6 +37,9 @@
 #define VF_DNS_RR_FIXED		((size_t)10)	/* TYPE + CLASS + TTL + RDLENGTH */
 #define VF_DNS_MAX_JUMPS	((size_t)64)	/* DNS_MAX_NAME_CYCLES */
 #define VF_DNS_FIND_NAME_MAX	((size_t)510)	/* sizeof(nametm) in dns_msg_rr_find */
+/* what a hostile message can make the uncompressed name length grow to: <= 64 jumps, every
+ * segment between two jumps lies inside the message (RFC 1035 limit of 255 is NOT enforced by the code) */
+#define VF_DNS_NAME_LEN_CAP	((VF_DNS_MAX_JUMPS + 1) * 65536)
 
 /* header counters, read from the received bytes in network order (spec side) */
 #define VF_DNS_BE16(p, off)	((size_t)((((const uint8_t *)(p))[(off)] << 8) | ((const uint8_t *)(p))[(off) + 1]))
@@ -107,8 +110,8 @@ __CPROVER_ensures(VF_RV == 0 || VF_RV == EINVAL || VF_RV == EBADMSG ||
     VF_RV == EOPNOTSUPP || VF_RV == ELOOP)
 __CPROVER_ensures((VF_RV == EINVAL) == (hdr == NULL || offset < VF_DNS_HDR_SIZE ||
     offset > msg_size || name_len_ret == NULL))
-/* extreme inputs: the accumulated length cannot wrap (<= 64 jumps, each segment inside the message) */
-__CPROVER_ensures(VF_RV == 0 ==> *name_len_ret <= (VF_DNS_MAX_JUMPS + 1) * msg_size)
+/* extreme inputs: the accumulated length cannot wrap (<= 64 jumps, each segment inside a message of <= 65535 bytes) */
+__CPROVER_ensures(VF_RV == 0 ==> *name_len_ret <= VF_DNS_NAME_LEN_CAP)
 ;
 
 static inline int
